@@ -208,8 +208,6 @@ def _pI(ck, prog):
     ck.count("pI loop body paths", len(paths))
     # which pre-loop names are counters / thresholds
     thr = [n for n in names if init[n].is_const() and init[n].const_value() == Fraction(1, 50)]
-    ck.ob("DT-pI", construct, len(thr) >= 1 or _literal_thr(loop), expected="error threshold 0.02",
-          found={n: repr(init[n]) for n in names}, slot="threshold", where=f.loc())
     ck.ob("LOOP", construct, True, expected="search loop found", found=unparse(loop.test if isinstance(loop, ast.While) else loop.iter), slot="loop")
     rets = [p for p in paths if p.kind == "return"]
     ck.ob("DT-pI", construct, len(rets) >= 1, expected="the search returns a pH on some path", found="%d returning paths" % len(rets), slot="return-site",
